@@ -15,6 +15,31 @@
 #include <string.h>
 #include <stdio.h>
 
+#ifdef CARQUET_VERIF
+/* Verification hook: every fseek/fread of the page-load path reports to the harness.
+ * The event and the stdio call happen under the stream lock, so the recorded order of
+ * events on one FILE* is the order in which the calls took effect. */
+#include "core/verif_hook.h"
+static int carquet_verif_fseek(FILE* f, long offset, int whence) {
+    CARQUET_VERIF_EVENT(CARQUET_VERIF_IO_YIELD, f, 0, 0);
+    flockfile(f);
+    CARQUET_VERIF_EVENT(CARQUET_VERIF_FSEEK, f, offset, ftell(f));
+    int r = fseek(f, offset, whence);
+    funlockfile(f);
+    return r;
+}
+static size_t carquet_verif_fread(void* p, size_t size, size_t n, FILE* f) {
+    CARQUET_VERIF_EVENT(CARQUET_VERIF_IO_YIELD, f, 0, 0);
+    flockfile(f);
+    CARQUET_VERIF_EVENT(CARQUET_VERIF_FREAD, f, size * n, ftell(f));
+    size_t r = fread(p, size, n, f);
+    funlockfile(f);
+    return r;
+}
+#define fseek carquet_verif_fseek
+#define fread carquet_verif_fread
+#endif
+
 /* CRC32 verification */
 extern uint32_t carquet_crc32(const uint8_t* data, size_t length);
 
